@@ -180,6 +180,9 @@ enum InsertKind {
   BlsKeyWithJwsAlg,
   /// the declared key type (`kty`) is not OKP although the members are those of an Ed25519 key
   KtyDisagreesWithMembers,
+  /// `x` is the public key of ANOTHER secret than `d`: signatures made with `d` could not verify under this JWK's
+  /// public part (and would verify under another key's)
+  PublicDoesNotBelongToPrivate,
 }
 
 #[derive(Clone, Debug)]
@@ -412,6 +415,10 @@ async fn run_op(sh: &Shared, client: usize, op: Op) {
         }
         InsertKind::X25519 => {
           priv_json["crv"] = "X25519".into();
+        }
+        InsertKind::PublicDoesNotBelongToPrivate => {
+          let (_, other_x) = harness_private_jwk(&mut sh.harness_keygen.borrow_mut());
+          priv_json["x"] = other_x.into();
         }
         InsertKind::KtyDisagreesWithMembers => {
           priv_json["kty"] = ["RSA", "EC", "oct"][ctx::choose(3)].into();
@@ -752,7 +759,8 @@ fn gen_op(n_slots: usize, n_digests: usize, invalid_bias: u32) -> Op {
     }
     1 => {
       if ctx::chance(invalid_bias, 6) {
-        Op::Insert(match ctx::choose(7) {
+        Op::Insert(match ctx::choose(8) {
+          7 => InsertKind::PublicDoesNotBelongToPrivate,
           6 => InsertKind::KtyDisagreesWithMembers,
           5 => InsertKind::BlsKeyWithJwsAlg,
           0 => InsertKind::PublicOnly,
